@@ -6,7 +6,7 @@ import hvgen
 import hvhist
 
 PROP_MODULES = ["HvsrVerif.Props.C11", "HvsrVerif.Props.C11Laws", "HvsrVerif.Props.C11Order", "HvsrVerif.Props.C11Cov"]
-BRIDGE_MODULES = ["HvsrVerif.Bridge.PyStats", "HvsrVerif.Bridge.PyVec"]
+BRIDGE_MODULES = ["HvsrVerif.Bridge.PyStats", "HvsrVerif.Bridge.PyVec", "HvsrVerif.Bridge.PyWeights"]
 
 
 def nontrivial(h):
